@@ -79,10 +79,20 @@ def lake_build(targets, timeout=3000):
 
 
 def prop_theorems(prop):
-    """names of the theorems of Props/<prop>.lean (namespace Heph.Props.<prop>)"""
+    """names of the theorems of Props/<prop>.lean (namespace Heph.Props.<prop>), followed by those of every
+    file Props/<prop><Suffix>.lean that it imports (`import Heph.Props.<prop><Suffix>`; its theorems live in
+    the namespace named by its first `namespace Heph.Props.<prop>.<Sub>` line and are returned as `<Sub>.<name>`)"""
     path = os.path.join(LEAN, "Heph", "Props", prop + ".lean")
-    txt = strip_lean_comments(open(path, encoding="utf-8").read())
-    return re.findall(r"^\s*theorem\s+([A-Za-z0-9_'.]+)", txt, re.M)
+    raw = open(path, encoding="utf-8").read()
+    txt = strip_lean_comments(raw)
+    names = re.findall(r"^\s*theorem\s+([A-Za-z0-9_'.]+)", txt, re.M)
+    for suffix in re.findall(r"^import Heph\.Props\.%s([A-Za-z0-9_]+)\s*$" % re.escape(prop), raw, re.M):
+        sub = strip_lean_comments(open(os.path.join(LEAN, "Heph", "Props", prop + suffix + ".lean"),
+                                       encoding="utf-8").read())
+        ns = re.search(r"^namespace Heph\.Props\.%s\.([A-Za-z0-9_.]+)" % re.escape(prop), sub, re.M)
+        pre = ns.group(1) + "." if ns else ""
+        names += [pre + n for n in re.findall(r"^\s*theorem\s+([A-Za-z0-9_'.]+)", sub, re.M)]
+    return names
 
 
 def audit(prop):
@@ -99,12 +109,25 @@ def audit(prop):
     out = p.stdout
     res = {}
     flat = re.sub(r"\n\s+", " ", out)      # long axiom lists wrap over lines
+    found = []
     for m in re.finditer(r"^'(.+)' depends on axioms: \[([^\]]*)\]", flat, re.M):
-        res[m.group(1).split(".")[-1]] = [a.strip() for a in m.group(2).split(",") if a.strip()]
+        found.append((m.group(1), [a.strip() for a in m.group(2).split(",") if a.strip()]))
     for m in re.finditer(r"^'(.+)' does not depend on any axioms", flat, re.M):
-        res[m.group(1).split(".")[-1]] = []
-    missing = [n for n in names if n.split(".")[-1] not in res]
+        found.append((m.group(1), []))
+    # keyed by the last name component (as always) and, taking precedence, by the name relative to
+    # Heph.Props.<prop> (theorems of an imported Props/<prop><Suffix>.lean are `<Sub>.<name>`)
+    pfx = "Heph.Props.%s." % prop
+    for full, ax in found:
+        res.setdefault(full.split(".")[-1], ax)
+    for full, ax in found:
+        if full.startswith(pfx):
+            res[full[len(pfx):]] = ax
+    missing = [n for n in names if audit_lookup(res, n) is None]
     return names, res, missing, out
+
+
+def audit_lookup(res, name):
+    return res[name] if name in res else res.get(name.split(".")[-1])
 
 
 def leanchecker(modules, timeout=3000):
@@ -200,7 +223,7 @@ class Run:
         self.cov["obligations"] = len(names)
         good = 0
         for n in names:
-            ax = res.get(n.split(".")[-1])
+            ax = audit_lookup(res, n)
             if ax is None:
                 self.broken.append({"obligation": "audit " + n, "detail": "no #print axioms output"})
             elif set(ax) - ALLOWED_AXIOMS:
@@ -208,7 +231,7 @@ class Run:
             else:
                 good += 1
         self.cov["discharged"] = good
-        self.cov["theorems"] = {n: res.get(n.split(".")[-1]) for n in names}
+        self.cov["theorems"] = {n: audit_lookup(res, n) for n in names}
         if self.tier == "thorough" and thorough_leanchecker:
             ok2, tail = leanchecker(["Heph.Props." + self.prop])
             self.cov["leanchecker_ok"] = ok2
